@@ -102,6 +102,8 @@ class Contract:
             return frozenset()
         args = func.args
         result = set()
+        for arg in getattr(args, 'posonlyargs', ()):
+            result.add(arg.arg)
         for arg in args.args:
             result.add(arg.arg)
         for arg in args.kwonlyargs:
